@@ -14,7 +14,7 @@ import (
 	. "vh/vhlib"
 )
 
-var gens = map[string]GenFn{"TLSTokens": genTLSTokens, "TransferTokens": genTransferTokens}
+var gens = map[string]GenFn{"TLSTokens": genTLSTokens, "TransferTokens": genTransferTokens, "ListenerTokens": genListenerTokens}
 
 // genTLSTokens reads
 //
@@ -554,4 +554,70 @@ func max64(a, b int64) int64 {
 		return a
 	}
 	return b
+}
+
+// genListenerTokens reads, from pkg/server/handler.go AddOrUpdateListener (update branch) and adapter.go DeleteListener:
+//
+//	insp_first     `rawConfig.Inspector = lc.Inspector` comes before the call of mtls.NewTLSServerContextManager(rawConfig)
+//	idle_stored    the update branch assigns rawConfig.ConnectionIdleTimeout
+//	remove_clears  DeleteListener calls a configmanager function that removes the listener config
+func genListenerTokens(repo string) (string, error) {
+	var b strings.Builder
+	b.WriteString("From MV Require Import Model.ListenerUpdate.\n")
+	ok := true
+	_, hf, err := ParseGoFile(repo, "pkg/server/handler.go")
+	if err != nil {
+		return "", err
+	}
+	inspFirst, idleStored := false, false
+	if fd := FindFunc(hf, "connHandler", "AddOrUpdateListener"); fd != nil {
+		inspPos, mgrPos := token.NoPos, token.NoPos
+		ast.Inspect(fd.Body, func(n ast.Node) bool {
+			switch x := n.(type) {
+			case *ast.AssignStmt:
+				if len(x.Lhs) == 1 && len(x.Rhs) == 1 {
+					l, r := exprString(x.Lhs[0]), exprString(x.Rhs[0])
+					if l == "rawConfig.Inspector" && r == "lc.Inspector" {
+						inspPos = x.Pos()
+					}
+					if l == "rawConfig.ConnectionIdleTimeout" && r == "lc.ConnectionIdleTimeout" {
+						idleStored = true
+					}
+				}
+			case *ast.CallExpr:
+				if exprString(x.Fun) == "mtls.NewTLSServerContextManager" && len(x.Args) == 1 && exprString(x.Args[0]) == "rawConfig" {
+					mgrPos = x.Pos()
+				}
+			}
+			return true
+		})
+		if inspPos == token.NoPos || mgrPos == token.NoPos {
+			ok = false
+		} else {
+			inspFirst = inspPos < mgrPos
+		}
+	} else {
+		ok = false
+	}
+	_, af, err := ParseGoFile(repo, "pkg/server/adapter.go")
+	if err != nil {
+		return "", err
+	}
+	removeClears := false
+	if fd := FindFunc(af, "ListenerAdapter", "DeleteListener"); fd != nil {
+		ast.Inspect(fd.Body, func(n ast.Node) bool {
+			if c, isc := n.(*ast.CallExpr); isc {
+				f := exprString(c.Fun)
+				if strings.HasPrefix(f, "configmanager.") && (strings.Contains(f, "Remove") || strings.Contains(f, "Delete")) {
+					removeClears = true
+				}
+			}
+			return true
+		})
+	} else {
+		ok = false
+	}
+	fmt.Fprintf(&b, "Definition listener_flags : lflags := mkF %v %v %v.\n", inspFirst, idleStored, removeClears)
+	fmt.Fprintf(&b, "Definition ListenerTokens_translator_ok := %v.\n", ok)
+	return b.String(), nil
 }
